@@ -118,6 +118,10 @@ fn router(gates: Arc<Gates>, middleware: bool, middleware_after: bool) -> Router
         match exit {
             0 => Ok(json!({"i": i})),
             1 => Err((ErrorCode::ApplicationErrorBase, format!("gate {i} says no"))),
+            // (long messages with multi-byte characters at odd and even byte offsets: whatever
+            // the server does with the panic payload, the caller still gets its InternalError)
+            _ if i % 3 == 1 => panic!("gate {i} panics: x{}", "ø".repeat(400)),
+            _ if i % 3 == 2 => panic!("gate {i} panics: {}", "ø".repeat(400)),
             _ => panic!("gate {i} panics"),
         }
     })
